@@ -41,6 +41,10 @@ func NewUnixFSHAMTShard(ctx context.Context, substrate dagpb.PBNode, data data.U
 	if err := validateHAMTData(data); err != nil {
 		return nil, err
 	}
+	// the bitfield may only be absent when there is nothing to index
+	if !data.FieldData().Exists() && substrate.FieldLinks().Length() > 0 {
+		return nil, ErrNoDataField
+	}
 	shardCache := make(map[ipld.Link]*_UnixFSHAMTShard, substrate.FieldLinks().Length())
 	bf, err := bitField(data)
 	if err != nil {
